@@ -102,23 +102,27 @@ func (m MemCache) insert(id uint16, addr net.IP, tr TemplateRecord) {
 	shard, key := m.getShard(id, addr)
 	shard.Lock()
 	defer shard.Unlock()
+	vhook("InsLocked", shard, key)
 	// another exporter / template id may hash to the same key: probe for this pair's own slot
 	for v, ok := shard.Templates[key]; ok && !v.owns(id, addr); v, ok = shard.Templates[key] {
 		key++
 	}
 	tr.TemplateID = id
 	shard.Templates[key] = Data{tr, time.Now().Unix(), append([]byte{}, addr...)}
+	vhook("InsDone", shard, key)
 }
 
 func (m MemCache) retrieve(id uint16, addr net.IP) (TemplateRecord, bool) {
 	shard, key := m.getShard(id, addr)
 	shard.RLock()
 	defer shard.RUnlock()
+	vhook("RetLocked", shard, key)
 	v, ok := shard.Templates[key]
 	for ok && !v.owns(id, addr) {
 		key++
 		v, ok = shard.Templates[key]
 	}
+	vhook("RetDone", shard, key)
 
 	return v.Template, ok
 }
